@@ -37,6 +37,32 @@ Definition ecase_check (c : ecase) : bool * bool :=
 Definition ecase_model_ok (c : ecase) : bool := fst (ecase_check c).
 Definition ecase_prop_ok (c : ecase) : bool := snd (ecase_check c).
 
+(* ---- fault classes of the property statement, end to end ---- *)
+Record scase := mkscase {
+  s_class : N;     (* 1 connection failure, 2 TLS failure, 3 connect time-out, 4 CONNECT rejected by the upstream proxy,
+                      5 any other upstream failure, 6 refusal by the proxy's own modifiers *)
+  s_feat : feat;   (* errors.As/Is facts of the error the fault produces (by construction of the scenario) *)
+  s_up : N;        (* class 4: the upstream proxy's status *)
+  s_raw : str; s_eof : bool;
+  s_go_verdict : N; s_go_status : N
+}.
+
+Definition scase_model_ok_r (c : scase) (r : presult) : bool :=
+  (verdict_n (pv r) =? s_go_verdict c) && (pstatus r =? s_go_status c) &&
+  (if s_class c =? 4 then pstatus r =? s_up c else pstatus r =? classify (s_feat c)).
+
+Definition scase_prop_ok_r (c : scase) (r : presult) : bool :=
+  is_complete r && (pmajor r =? 1) && match prest r with [] => true | _ => false end &&
+  (if s_class c =? 4 then pstatus r =? s_up c
+   else has_header error_header r && (pframing r =? 1) &&
+        (if (s_class c =? 1) || (s_class c =? 2) then pstatus r =? 502
+         else if s_class c =? 3 then pstatus r =? 504
+         else if s_class c =? 5 then (500 <=? pstatus r) && (pstatus r <=? 599)
+         else in_error_range (pstatus r))).
+
+Definition scase_check (c : scase) : bool * bool :=
+  let r := client_parse (s_raw c) (s_eof c) false in (scase_model_ok_r c r, scase_prop_ok_r c r).
+
 (* ---- cut sweep ---- *)
 Record fcase := mkfcase {
   f_framing : N;        (* framing of the origin's reply: 1 Content-Length, 2 chunked, 3 close-delimited *)
